@@ -26,7 +26,10 @@ pub struct LifeWorld {
     dir: String,
 }
 
-const RSZ: usize = 8192;
+/// region sizes vary with the region id: page multiples, a partial last page, less than a page
+fn rsz(rid: u64) -> usize {
+    [8192usize, 4096 + 100, 100, 12288, 5000][(rid % 5) as usize]
+}
 fn start_of(rid: u64) -> u64 {
     rid * 0x10000
 }
@@ -73,9 +76,10 @@ impl LifeWorld {
                 let (rid, owned) = (kv.n("rid"), kv.n("owned") == 1);
                 let path = format!("{}/r{}", self.dir, rid);
                 let f = std::fs::OpenOptions::new().read(true).write(true).create(true).truncate(true).open(&path).unwrap();
-                f.set_len(RSZ as u64).unwrap();
+                let rsz_ = rsz(rid);
+                f.set_len(rsz_ as u64).unwrap();
                 let region = if owned {
-                    MmapRegionBuilder::<()>::new(RSZ)
+                    MmapRegionBuilder::<()>::new(rsz_)
                         .with_file_offset(FileOffset::new(f, 0))
                         .with_mmap_prot(libc::PROT_READ | libc::PROT_WRITE)
                         .with_mmap_flags(libc::MAP_SHARED | libc::MAP_NORESERVE)
@@ -83,9 +87,9 @@ impl LifeWorld {
                         .unwrap()
                 } else {
                     use std::os::fd::AsRawFd;
-                    let p = unsafe { libc::mmap(std::ptr::null_mut(), RSZ, libc::PROT_READ | libc::PROT_WRITE, libc::MAP_SHARED, f.as_raw_fd(), 0) };
-                    self.ext.push((p as usize, RSZ));
-                    unsafe { MmapRegionBuilder::<()>::new(RSZ).with_raw_mmap_pointer(p as *mut u8).with_mmap_prot(libc::PROT_READ | libc::PROT_WRITE).with_mmap_flags(libc::MAP_SHARED).build() }.unwrap()
+                    let p = unsafe { libc::mmap(std::ptr::null_mut(), rsz_, libc::PROT_READ | libc::PROT_WRITE, libc::MAP_SHARED, f.as_raw_fd(), 0) };
+                    self.ext.push((p as usize, rsz_));
+                    unsafe { MmapRegionBuilder::<()>::new(rsz_).with_raw_mmap_pointer(p as *mut u8).with_mmap_prot(libc::PROT_READ | libc::PROT_WRITE).with_mmap_flags(libc::MAP_SHARED).build() }.unwrap()
                 };
                 let r = Arc::new(GuestRegionMmap::new(region, GuestAddress(start_of(rid))).unwrap());
                 self.rids.insert(rid, (path, owned));
@@ -125,9 +129,9 @@ impl LifeWorld {
             "l.remove" => {
                 let (src, rid, hreg) = (kv.n("src"), kv.n("rid"), kv.n("hreg"));
                 let res = match &self.handles[&src] {
-                    H::Map(m) => m.remove_region(GuestAddress(start_of(rid)), RSZ as u64),
-                    H::Guard(g) => g.remove_region(GuestAddress(start_of(rid)), RSZ as u64),
-                    H::ArcMap(m) => m.remove_region(GuestAddress(start_of(rid)), RSZ as u64),
+                    H::Map(m) => m.remove_region(GuestAddress(start_of(rid)), rsz(rid) as u64),
+                    H::Guard(g) => g.remove_region(GuestAddress(start_of(rid)), rsz(rid) as u64),
+                    H::ArcMap(m) => m.remove_region(GuestAddress(start_of(rid)), rsz(rid) as u64),
                     _ => return "bad-kind".into(),
                 };
                 let (new, r) = res.unwrap();
@@ -159,6 +163,24 @@ impl LifeWorld {
             "l.drop" => {
                 self.handles.remove(&hid);
                 self.refs.remove(&hid);
+            }
+            "l.fail" => {
+                // a construction that fails (file range past the end of the file, by `over` bytes) owns nothing afterwards
+                let path = format!("{}/f{}", self.dir, kv.n("rid"));
+                let f = std::fs::OpenOptions::new().read(true).write(true).create(true).truncate(true).open(&path).unwrap();
+                f.set_len(kv.n("flen")).unwrap();
+                let res = MmapRegionBuilder::<()>::new(kv.us("size"))
+                    .with_file_offset(FileOffset::new(f, 0))
+                    .with_mmap_prot(libc::PROT_READ | libc::PROT_WRITE)
+                    .with_mmap_flags(libc::MAP_SHARED | libc::MAP_NORESERVE)
+                    .build();
+                let left = self.mapped(&path);
+                let _ = std::fs::remove_file(&path);
+                match res {
+                    Ok(r) => { drop(r); rec.fail("C15", "l.fail/built-past-eof", line); }
+                    Err(_) if left => rec.fail("C12", "failed-construction-left-a-mapping", line),
+                    Err(_) => {}
+                }
             }
             _ => return "bad-op".into(),
         }
@@ -255,6 +277,10 @@ pub fn run(rec: &mut Rec, rng: &mut Rng, n_ops: usize) {
                 let src = *rng.pick(&all);
                 next_h += 1;
                 format!("l.clone hid={} src={} how={}", hid, src, rng.pick(&["plain", "snapshot", "arc"]))
+            } else if r < 82 {
+                next_r += 1;
+                let flen = *rng.pick(&[0u64, 100, 4096, 5000, 8192]);
+                format!("l.fail rid={} flen={} size={}", next_r - 1, flen, flen + 1 + rng.below(5000))
             } else {
                 let all: Vec<u64> = regs.iter().chain(maps.iter()).copied().collect();
                 format!("l.drop hid={}", rng.pick(&all))
